@@ -144,6 +144,17 @@ func ipv6Class(r *rand.Rand) net.IP {
 
 // sdString: a slice differentiator as configuration files and APIs spell it - six hex digits in lower, upper or mixed
 // case (TS 29.571 allows all three), with the reserved value ffffff and letter-free values among them.
+// mixCase: each letter of a hexadecimal text in upper or lower case on its own.
+func mixCase(r *rand.Rand, s string) string {
+	b := []byte(s)
+	for i := range b {
+		if b[i] >= 'a' && b[i] <= 'f' && r.Intn(2) == 0 {
+			b[i] -= 'a' - 'A'
+		}
+	}
+	return string(b)
+}
+
 func sdString(r *rand.Rand) string {
 	s := hexs(rbytes(r, 3))
 	switch r.Intn(8) {
